@@ -27,6 +27,7 @@ import (
 	"strings"
 	"testing"
 
+	"pgregory.net/rapid"
 	"sigs.k8s.io/controller-runtime/pkg/client"
 
 	"github.com/crossplane/crossplane/internal/verifenv"
@@ -87,11 +88,82 @@ type world struct {
 	step func(c client.Client, i int) error
 	// clientFor returns the client the i-th run uses (nil: live client).
 	clientFor func(run *verifsim.Run, i int) client.Client
+	// live is the uncached (always current) client of the run in progress; sites that
+	// are wired with distinct cached and uncached clients use it as the uncached one.
+	live client.Client
+	// vis says how the foreign target appears to the site's reads during the first run.
+	vis visibility
 	// between is what the environment does between two runs (may be nil).
 	between func()
 	// protected are keys that must stay byte-identical besides every
 	// foreign-controlled object (used where ownership is not a controller reference).
 	protected []verifsim.Key
+}
+
+// visibility is the stale-read perturbation of a foreign placement. Writes
+// always hit the live store; only the site's reads (its informer cache) lag.
+//
+//	visible:   the site reads a coherent store.
+//	hidden:    the foreign object exists in the API server but the site's cache has not seen it
+//	           during the whole first run (later runs see it).
+//	appears@k: the site's reads do not see it before API call k of the first run and see it from
+//	           call k on - the other owner created it between two of the site's calls (for k = the
+//	           call after a Get: between Apply's Get and its Create), or the cache caught up mid-run.
+type visibility struct {
+	Mode string `json:"mode"`
+	K    int    `json:"k,omitempty"`
+}
+
+var visible = visibility{Mode: "visible"}
+
+func (v visibility) class() string {
+	switch v.Mode {
+	case "hidden":
+		return "foreign-object-hidden-from-cache"
+	case "appears":
+		return "foreign-object-created-by-interloper-mid-run"
+	}
+	return "foreign-object-visible"
+}
+
+func genVisibility() *rapid.Generator[visibility] {
+	return rapid.Custom(func(t *rapid.T) visibility {
+		switch rapid.IntRange(0, 9).Draw(t, "visibility") {
+		case 0, 1, 2, 3:
+			return visible
+		case 4, 5, 6:
+			return visibility{Mode: "hidden"}
+		}
+		return visibility{Mode: "appears", K: rapid.IntRange(1, 14).Draw(t, "appearsAtCall")}
+	})
+}
+
+// hide makes the first run read through a lagging cache that does not show the target.
+func (w *world) hide(target verifsim.Key, v visibility) {
+	w.vis = v
+	if w.clientFor != nil {
+		// The composer's generated-name variant brings its own lagging cache for the first run.
+		w.vis = visibility{Mode: "hidden"}
+		return
+	}
+	if v.Mode == "visible" {
+		return
+	}
+	w.clientFor = func(run *verifsim.Run, i int) client.Client {
+		if i > 0 {
+			return nil
+		}
+		return run.StaleClient(func(k verifsim.Key) int {
+			if k != target {
+				return 0
+			}
+			// run.N counts the calls begun so far, the one in progress included.
+			if v.Mode == "appears" && run.N-1 >= v.K {
+				return 0
+			}
+			return verifsim.LagHideNew
+		})
+	}
 }
 
 // expectation is what the oracle demands of one case.
@@ -111,6 +183,10 @@ type expectation struct {
 	noController bool
 	// untouchedOnNone: with no controller reference the site must still refuse (legacy Opaque secrets).
 	untouchedOnNone bool
+	// noStaleReads: why the stale-read perturbation is not applied to this case (counted as excluded).
+	noStaleReads string
+	// noReads: the site is driven without reads of its own (nothing to hide from).
+	noReads bool
 	// check, if set, is an extra site-specific clause evaluated for the foreign placement.
 	extra func(w *world, fail func(string, ...any))
 }
@@ -177,6 +253,7 @@ func (w *world) runSite(n int) []error {
 	for i := 0; i < n; i++ {
 		run := w.sim.NewRun(siteActor, nil)
 		var c client.Client = run.Client()
+		w.live = run.Client()
 		if w.clientFor != nil {
 			if cc := w.clientFor(run, i); cc != nil {
 				c = cc
@@ -288,7 +365,14 @@ func judge(w *world, e expectation, runs int, fail func(string, ...any)) (wrote 
 		if _, ok := before[e.target]; !ok {
 			fail("%s: harness error: the foreign-controlled target is not in the store before the run", ctx)
 		}
-		if e.surface {
+		// A site whose reads never showed it the object and that never addressed a request to it has no conflict to report.
+		addressed := w.vis.Mode == "" || w.vis.Mode == "visible"
+		for _, wr := range w.sim.Log()[from:] {
+			if wr.Key == e.target && wr.Actor == siteActor {
+				addressed = true
+			}
+		}
+		if e.surface && addressed {
 			if len(errs) == 0 && len(w.rec.Warnings()) == 0 && !w.unsynced() {
 				fail("%s: the conflict did not surface: no error returned, no Warning event, no Synced=False/Healthy=False condition on %s (events: %v)", ctx, w.ownerKey, w.rec.Events())
 			}
@@ -328,7 +412,7 @@ func judge(w *world, e expectation, runs int, fail func(string, ...any)) (wrote 
 
 // runCase evaluates one generated case: the control run (no controller
 // reference) on a fresh world, then the drawn placement on another fresh world.
-func runCase(rec *verifkit.Recorder, build func(p placement) (*world, expectation), p placement, runs int, sample func() any, fail func(string, ...any)) {
+func runCase(rec *verifkit.Recorder, build func(p placement) (*world, expectation), p placement, vis visibility, runs int, sample func() any, fail func(string, ...any)) {
 	rec.Eval()
 	cw, ce := build(none)
 	controlWrote := judge(cw, ce, runs, fail)
@@ -342,7 +426,16 @@ func runCase(rec *verifkit.Recorder, build func(p placement) (*world, expectatio
 		return
 	}
 	w, e := build(p)
-	judge(w, e, runs, fail)
+	if p.isForeign() && e.noStaleReads != "" && vis.Mode != "visible" {
+		rec.Excluded()
+		rec.Labelf("class:%s/stale-read-not-applied(%s)", e.site, e.noStaleReads)
+		vis = visible
+	}
+	if p.isForeign() && !e.noReads {
+		w.hide(e.target, vis)
+		rec.Labelf("class:%s/%s", e.site, w.vis.class())
+	}
+	judge(w, e, runs, func(f string, a ...any) { fail("[reads: %s] "+f, append([]any{verifkit.JSON(w.vis)}, a...)...) })
 	if p.isForeign() {
 		if e.surface {
 			rec.Label("foreign:surfacing-demanded")
@@ -350,7 +443,7 @@ func runCase(rec *verifkit.Recorder, build func(p placement) (*world, expectatio
 			rec.Label("foreign:ignored-by-design(no surfacing demanded)")
 		}
 		if controlWrote {
-			rec.NonTrivial(fmt.Sprintf("%s|%s|%s", e.site, e.kind, p), sample)
+			rec.NonTrivial(fmt.Sprintf("%s|%s|%s|%s", e.site, e.kind, p, w.vis.Mode), sample)
 		}
 	}
 }
